@@ -459,6 +459,69 @@ def ob_eig_native(dim, seed):
     return Verdict(DISCHARGED, backend="native float run vs numpy eigh (1e-9)", sub=n)
 
 
+def _km_basis(dim):
+    r2 = np.sqrt(2)
+    if dim == 2:
+        pairs = [(0, 0, 1.0), (1, 1, 1.0), (0, 1, 1 / r2)]
+    else:
+        pairs = [(0, 0, 1.0), (1, 1, 1.0), (2, 2, 1.0), (1, 2, 1 / r2), (0, 2, 1 / r2), (0, 1, 1 / r2)]
+    out = []
+    for i, j, c in pairs:
+        E = np.zeros((dim, dim))
+        E[i, j] += c
+        E[j, i] += c if i != j else 0.0
+        out.append(E)
+    return out
+
+
+def _frechet_positive_part(A):
+    """Kelvin-Mandel matrix of the derivative of A -> A+ (positive part of a symmetric tensor), from numpy eigh: sum_ij theta_ij (v_i v_i^T) H (v_j v_j^T) with
+    theta_ij = (f(l_i) - f(l_j)) / (l_i - l_j), f' (l_i) for equal values (Daleckii-Krein); defined where no principal value is exactly zero"""
+    dim = A.shape[0]
+    w, V = np.linalg.eigh(A)
+    f, df = np.maximum(w, 0), (w > 0).astype(float)
+    r2 = np.sqrt(2)
+    km = (lambda M: np.array([M[0, 0], M[1, 1], r2 * M[0, 1]])) if dim == 2 else (lambda M: np.array([M[0, 0], M[1, 1], M[2, 2], r2 * M[1, 2], r2 * M[0, 2], r2 * M[0, 1]]))
+    sc = max(np.abs(w).max(), 1e-300)
+    D = []
+    for H in _km_basis(dim):
+        Hh = V.T @ H @ V
+        R = np.zeros_like(Hh)
+        for i in range(dim):
+            for j in range(dim):
+                th = df[i] if abs(w[i] - w[j]) <= 1e-12 * sc else (f[i] - f[j]) / (w[i] - w[j])
+                R[i, j] = th * Hh[i, j]
+        D.append(km(V @ R @ V.T))
+    return np.array(D).T
+
+
+def ob_projector_frechet(dim, seed):
+    """the positive projector is the derivative of eps -> eps+ : compared with the closed form built on numpy eigh at generic states and at states with repeated
+    principal values (in the repeated eigen-plane the limit of the divided differences is the derivative of the positive part)"""
+    from EasyFEA.FEM._linalg import FeArray
+    pf = _model("Miehe", dim)
+    n = 0
+    for label, eps, mats in _fields(dim, seed):
+        with np.errstate(all="ignore"):
+            projP, projM = pf._PhaseField__Spectral_Decomposition(FeArray.asfearray(eps.copy()))
+        projP = np.asarray(projP, dtype=float)
+        for e in range(eps.shape[0]):
+            for p in range(eps.shape[1]):
+                A = mats[e][p]
+                w = np.linalg.eigvalsh(A)
+                if np.abs(w).min() <= 1e-9 * max(np.abs(w).max(), 1e-300):
+                    continue                         # the positive part is not differentiable where a principal value vanishes
+                want = _frechet_positive_part(A)
+                err = float(np.abs(projP[e, p] - want).max())
+                n += 1
+                if err > 1e-7:
+                    raise Refuted(f"positive projector {dim}-D on {label} (principal values {np.round(w, 5).tolist()}), element {e} point {p}: differs from d(eps+)/d(eps) by {err:.3e}",
+                                  cex=dict(state=label, matrix=A.tolist()), signature=f"frechet{dim}d:{label.split('[')[0]}", replay=dict(confirmed=True, err=err, code=projP[e, p].tolist(), reference=want.tolist()))
+    if n < 8:
+        raise Unsupported("too few differentiable states")
+    return Verdict(DISCHARGED, backend="native float run vs Daleckii-Krein formula on numpy eigh (1e-7)", sub=n)
+
+
 def ob_damage_monotone(solver):
     """Load / unload sequence on a small mesh (native floats): between saved steps the stored nodal damage (damage-based solvers) and the
     history energy at every integration point (History solver) never decrease; with no loading the damage stays zero."""
@@ -562,6 +625,9 @@ def build(tier, seed):
     for dim in (2, 3):
         obs.append(Ob(f"C17.eig.native.{dim}d", ob_eig_native, (dim, seed), "X", (f"{MP}::PhaseField._Eigen_values_vectors_projectors",),
                       bound="14 designated fields (8 uniform kinds + 6 mixed 2x2 fields), floats", clause="finite; eigenvalues/projectors agree with numpy eigh", timeout=120))
+        obs.append(Ob(f"C17.projector.frechet.{dim}d", ob_projector_frechet, (dim, seed), "X", (f"{MP}::PhaseField.__Spectral_Decomposition",),
+                      bound="designated fields with no vanishing principal value (generic, hydrostatic, two equal largest / smallest values, compression; uniform and mixed), floats",
+                      clause="P+ == d(eps+)/d(eps) as given by the divided-difference formula on an independent eigen-decomposition", timeout=120))
         for split in _splits():
             for aniso in ((False, True) if tier == "thorough" else (False,)):
                 from EasyFEA import Models
